@@ -32,7 +32,7 @@ def check_frame_decoder(ctx, f, G1='G1', G2='G2'):
     B = hirq.Body(f, f.hir[dp])
     ctx.analysed['bodies'].add(dp)
     buf = ('param', [d['name'] for b, d in B.defs.items() if d['kind'] == 'param'][0])
-    outs = absx.Interp(f, B).run()
+    outs = absx.Interp(f, B, local_try=True).run()          # (a `?` inside a helper expanded into the decoder leaves that helper)
     def parse_calls(o):
         return [e for e in o.st.ev if e[0] == 'call' and e[1] == 'lber::parse::Parser::parse']
     def mutations(o):
